@@ -82,7 +82,7 @@ def main(tier, replay):
         # fixed-structure one, empty strings (string lengths multiply the structure space without adding structure)
         small = n in nodes and nodes[n] <= 3
         jobs.append({'name': 'shred|%s|%s' % (n, canon[n]), 'pkg': 'scratch/' + n, 'func': 'HarnessShred',
-                     'args': [0, 3, 0, 2, 1, 1, 3, 0] if wide else ([2, 0, 0, 2, 1, 1, 3, 0] if small else [1, 1, 0, 2, 0, 1, 3, 0]), 'opt': {'stub': stub, 'max_paths': 120000}})
+                     'args': [0, 3, 0, 2, 1, 1, 3, 0] if wide else ([2, 0, 0, 2, 1, 1, 3, 0] if small else [1, 1, 0, 2, 0, 1, 3, 0]), 'opt': {'stub': stub, 'max_paths': 600000}})
         jobs.append({'name': 'file|%s|%s' % (n, canon[n]), 'pkg': 'scratch/' + n, 'func': 'HarnessFile',
                      'args': [0, 2, -1, 1, 1, len(n) % 3, 1, 0, 0] if wide else [1, 1, -1, 1, 1, len(n) % 3, 1, 0, 0], 'opt': {'stub': stub, 'mode_b': True}})
     jobs.append({'name': 'sens-striping', 'pkg': 'scratch/flat_int32', 'func': 'HarnessShred', 'args': [1, 0, 0, 1, 1, 0, 3, 1], 'expect': 'striping', 'opt': {}})
